@@ -130,6 +130,34 @@ def run(repo: Repo, rep: Report, tier: str) -> None:
     ok = isinstance(first, ast.If) and first.body and isinstance(first.body[0], ast.Return) and norm(first.body[0].value) == "signal_type" and "startswith('__')" in norm(first.test) and "not" in norm(first.test)
     rep.check(ok, "C13-R3", "explicit signal names are returned unchanged before any mapping", norm(first.test)[:100] if isinstance(first, ast.If) else "first statement is not the pass-through guard", rs.loc(first) if first is not None else rs.loc())
 
+    # ---------------- R4 ---------------------------------------------------------------
+    rep.rule("C13-R4", "compiler-internal type keys never reach a combinator: in EntityPlacer every signal-valued property of a combinator placement that is taken from an IR field "
+             "(`op.*`) passes through one of SignalAnalyzer's resolvers (resolve_signal_name / get_signal_name / get_operand_for_combinator)")
+    from .util import canon as _canon4
+    from ..core import kwarg as _kwarg4
+    RESOLVERS = ("resolve_signal_name(", "get_signal_name(", "get_operand_for_combinator(")
+    SIGNAL_KEYS = {"signal_name", "output_signal", "left_operand", "right_operand", "signals", "output_value"}
+    ep4 = repo.cls("EntityPlacer")
+    n4 = 0
+    for m4 in ep4.methods.values():
+        c4 = None
+        for call4 in calls_in(m4.node, "create_and_add_placement"):
+            et4 = _kwarg4(call4, "entity_type")
+            if not (isinstance(et4, ast.Constant) and str(et4.value).endswith("-combinator")):
+                continue
+            for k4 in call4.keywords:
+                if k4.arg not in SIGNAL_KEYS:
+                    continue
+                c4 = c4 or _canon4(m4)
+                t4 = c4.text(k4.value)
+                if "op." not in t4:
+                    continue
+                n4 += 1
+                ok4 = any(r4 in t4 for r4 in RESOLVERS)
+                rep.check(ok4, "C13-R4", f"{m4.short}: `{k4.arg}` of the {et4.value} is resolved to a Factorio signal", t4[:110] if ok4 else
+                          f"`{k4.arg}={t4[:60]}` is stored unresolved: a member typed with `x.type` of an untyped x keeps the internal key (`__v1`), which is not a signal", m4.loc(call4))
+    rep.floor("C13-R4", "IR-derived signal properties on combinator placements", n4, 10)
+
 
 def _stmt(pm, n):
     cur = n
